@@ -457,6 +457,19 @@ async fn fabitn(
         .map(|_| (0..blocks).map(|_| aes_rand.random()).collect())
         .collect();
 
+    #[cfg(polytune_verif)]
+    if lprime <= 4096 {
+        // [l, l', then per test combination its coefficient bits, 128 per value, position k at bit k % 128]
+        let mut v: Vec<u128> = vec![l as u128, lprime as u128];
+        for rbits in &r {
+            v.extend(
+                rbits
+                    .iter()
+                    .map(|b| ((b.high() as u128) << 64) | b.low() as u128),
+            );
+        }
+        crate::verif::probe("abit_r", i, &v);
+    }
     // Step 3 b) Compute xj and xjmac for each party, broadcast xj.
     // We batch messages and send xjmac with xj as well, as from Step 3 d).
     let mut xj = Vec::with_capacity(three_rho);
